@@ -170,7 +170,7 @@ Definition fpu_form := (Z * bool * Z * Z * Z)%type.
 Definition w_hi (w : Z) : Z := (w / 1024) mod 256.
 Definition sec_digit (b : Z) : Z := if (192 <=? b) && (b mod 8 =? 0) then (b - 192) / 8 else -100.
 Definition fl_bit (fl d : Z) : bool := (fl / d) mod 2 =? 1.
-Definition fpu_forms (e : inst_entry) : list fpu_form :=
+Definition fpu_forms (hl : list (Z * Z * Z)) (e : inst_entry) : list fpu_form :=
   let w := ie_main e in let a := ie_alt e in let fl := ie_flags e in
   let opt (c : bool) (f : fpu_form) := if c then [f] else [] in
   let arithmem := [(216, false, w_modo w, -1, 4); (220, false, w_modo w, -1, 8)] in
@@ -178,7 +178,9 @@ Definition fpu_forms (e : inst_entry) : list fpu_form :=
   if c =? 67 then [(216, true, sec_digit (w_hi w), -1, 0); (220, true, sec_digit (w_opc w), -1, 0)] ++ arithmem
   else if c =? 68 then [(216, true, sec_digit (w_hi w), -1, 0); (216, true, sec_digit (w_hi w), 1, 0)] ++ arithmem
   else if c =? 69 then opt (fl_bit fl 4096) (w_opc w, false, w_modo w, -1, 4) ++ opt (fl_bit fl 8192) (w_opc w + 4, false, w_modo w, -1, 8) ++
-                       opt (fl_bit fl 2048) (w_opc a, false, w_modo a, -1, 10)
+                       opt (fl_bit fl 2048) (w_opc a, false, w_modo a, -1, 10) ++
+                       (* the register forms are literals of the handler (per instruction id), read from the source text: `hl` *)
+                       flat_map (fun t => match t with (nm, esc, sec) => if nm =? ie_name e then [(esc, true, sec_digit sec, -1, 0)] else [] end) hl
   else if c =? 70 then opt (fl_bit fl 2048) (w_opc w + 4, false, w_modo w, -1, 2) ++ opt (fl_bit fl 4096) (w_opc w, false, w_modo w, -1, 4) ++
                        opt (fl_bit fl 8192) (w_opc a, false, w_modo a, -1, 8)
   else if c =? 71 then [(w_hi w, true, sec_digit (w_opc w), -1, 0)]
@@ -193,9 +195,27 @@ Definition fpu_row_is (r : row) (f : fpu_form) : bool :=
   end.
 (* forward: every form the handler can emit is a database row of the mnemonic; converse: every database row of the mnemonic is one
    of these forms (FpuFldFst: every MEMORY row) *)
-Definition fpu_derived_agrees (rows : list row) (e : inst_entry) : bool :=
-  forallb (fun f => existsb (fun r => (r_name r =? ie_name e) && fpu_row_is r f) rows) (fpu_forms e) &&
-  forallb (fun r => negb (r_name r =? ie_name e) || ((ie_enc e =? 69) && (r_mod r =? 1)) || existsb (fpu_row_is r) (fpu_forms e)) rows.
+Definition fpu_derived_agrees (hl : list (Z * Z * Z)) (rows : list row) (e : inst_entry) : bool :=
+  forallb (fun f => existsb (fun r => (r_name r =? ie_name e) && fpu_row_is r f) rows) (fpu_forms hl e) &&
+  forallb (fun r => negb (r_name r =? ie_name e) || existsb (fpu_row_is r) (fpu_forms hl e)) rows.
+
+(* mov / movabs / pushw: the instruction table holds no opcode for them; the handler hard-codes it.  The opcode literals of the handler
+   block (read from the source text of x86assembler.cpp by tools/c01_tables.py: every `opcode = / += 0xNN` of the block, with the 0F map
+   when the line names k000F00) are compared with the database: every literal is the opcode of a legacy form of the mnemonic, and every
+   form of the mnemonic has a literal as opcode, or the literal + 1 (the size bit added by add_arith_by_size / `+ (size != 1)`) *)
+Definition handler_lits_agree (name : Z) (lits : list (Z * Z)) (rows : list row) : bool :=
+  negb (match lits with [] => true | _ => false end) &&
+  forallb (fun l => existsb (fun r => (r_name r =? name) && (r_kind r =? 0) && (r_map r =? fst l) && (r_opc r =? snd l)) rows) lits &&
+  forallb (fun r => negb (r_name r =? name) ||
+                    existsb (fun l => (r_kind r =? 0) && (r_map r =? fst l) && ((r_opc r =? snd l) || (r_opc r =? snd l + 1))) lits) rows.
+(* pushw: literals are (has the 66 prefix?, opcode) *)
+Definition pushw_lits_agree (name : Z) (lits : list (Z * Z)) (rows : list row) : bool :=
+  negb (match lits with [] => true | _ => false end) &&
+  existsb (fun r => r_name r =? name) rows &&
+  forallb (fun r => negb (r_name r =? name) ||
+                    existsb (fun l => (r_kind r =? 0) && (r_map r =? 0) && (r_opc r =? snd l) && Bool.eqb (r_pp r =? 2) (fst l =? 1)) lits) rows.
+Definition inst_has (tbl : list (inst_entry * list row)) (name : Z) (f : list row -> bool) : bool :=
+  existsb (fun p => (ie_name (fst p) =? name) && f (snd p)) tbl.
 Definition fpu_derived_classes : list Z := [67; 68; 69; 70; 71; 72; 73].
 
 Definition zmem (x : Z) (l : list Z) : bool := existsb (Z.eqb x) l.
